@@ -78,6 +78,10 @@ def make(sx, producer, topo, prefix="p"):
     if producer == "copy":
         src, _, P = make(sx, "literal", topo, prefix)
         return M.mesh.copy(src), [(src, P)], P
+    if producer in ("copy-of-arrays", "copy-attributes-of-arrays"):
+        # the source stores its faces as rows of the caller's index array
+        src, _, P = make(sx, "from_arrays", topo, prefix)
+        return M.mesh.copy(src, copy_attributes=(producer == "copy-attributes-of-arrays")), [(src, P)], P
     if producer == "copy-attributes":
         src, _, P = make(sx, "literal", topo, prefix)
         return M.mesh.copy(src, copy_attributes=True), [(src, P)], P
@@ -358,7 +362,8 @@ def edits(producers, topos):
         target = sx.choice("edit_target", 1 + len(inputs))        # 0 = the output, k = k-th input
         objs = [(out, P)] + list(inputs)
         victim, Pv = objs[target]
-        edit = ["assign-vertex", "inplace-coordinate", "append-vertex", "append-element"][sx.choice("edit", 4)]
+        edit = ["assign-vertex", "inplace-coordinate", "append-vertex", "append-element", "inplace-element-entry"][sx.choice("edit", 5)]
+        elems_before = [[tuple(int(v) for v in e) for e in (m.faces if hasattr(m, "faces") else (m.edges if hasattr(m, "edges") else []))] for m, _ in objs]
         newv = [sx.real("n%d" % k) for k in range(3)]
         idx = sx.choice("edit_index", len(Pv))
         try:
@@ -368,6 +373,11 @@ def edits(producers, topos):
                 victim.vertices[idx][0] = newv[0]
             elif edit == "append-vertex":
                 victim.vertices.append(M.Vec(_v3(sx, newv)))
+            elif edit == "inplace-element-entry":
+                cont = victim.faces if hasattr(victim, "faces") else (victim.edges if hasattr(victim, "edges") else None)
+                if cont is None or isinstance(cont[0], tuple):
+                    sx.assume(False)        # tuples cannot be rewritten in place
+                cont[0][0], cont[0][1] = cont[0][1], cont[0][0]
             else:
                 if not hasattr(victim, "edges"):
                     sx.assume(False)        # a point cloud has no element container to append to
@@ -382,6 +392,10 @@ def edits(producers, topos):
                 continue
             other = "an input" if k > 0 else "the result"
             same_coords(sx, m, Pm, "editing %s of a copy/merge (%s) leaves %s unchanged" % (what, edit, other) + tag)
+            if edit == "inplace-element-entry":
+                now = [tuple(int(v) for v in e) for e in (m.faces if hasattr(m, "faces") else (m.edges if hasattr(m, "edges") else []))]
+                sx.check(now == elems_before[k], "rewriting an element entry of %s in place leaves the elements of %s unchanged" % (what, other) + tag,
+                         detail="%s -> %s" % (elems_before[k], now))
             if edit == "append-element":
                 pass
     return h
@@ -461,7 +475,7 @@ def obligations(tier):
            note="rotate with the rotation given as matrix / Euler angles / Rotation object (Rotation replaced by a twin obeying its documented contract)"),
         Ob("concrete-histories", concrete_histories, covers=COVERS, split=4,
            note="float-array ownership/aliasing: copy / merge / boundary / reorder then translate by a vector or by one of the mesh's own vertices"),
-        Ob("edits", edits(["copy", "copy-attributes", "merge-one", "merge-self", "merge-two", "merge-cloud-first", "merge-cloud-last", "merge-extra-edge"], ["tri"] if q else ["tri", "tri2", "tet"]), covers=COVERS, split=6,
+        Ob("edits", edits(["copy", "copy-attributes", "copy-of-arrays", "copy-attributes-of-arrays", "merge-one", "merge-self", "merge-two", "merge-cloud-first", "merge-cloud-last", "merge-extra-edge"], ["tri"] if q else ["tri", "tri2", "tet"]), covers=COVERS, split=6,
            note="editing one side of a copy/merge never shows on the other"),
     ]
     if not q:
